@@ -374,6 +374,65 @@ TRM(c, solve) ==
                              rows == [i \in 1..m |-> SolveTri(Tt, aB[i], n, ~lower)] IN rows
     IN  Res(hard, early, soft, WithD(b, "B", PutSel(b.B.d, a.offsetB, ldB, m, n, new, All)), Z0, b)
 
+(******************* products with sparse operands (module base) *******************)
+(* base.gemv / base.gemm / base.syrk accept sparse matrices.  A sparse operand is given by its DENSE IMAGE (b.A.d, column-major, nr x nc) - the
+   compressed-column storage is the business of SparseCCS.tla - so the reference result is the dense one.  b.<name>.sp says which operands are
+   sparse; for a sparse C with partial = TRUE only the entries of C's pattern (b.Cmask.d, 1 = stored) are updated.                              *)
+Img(b, i, j) == b.d[(j - 1) * b.nr + i]
+SPGEMV(c) ==
+    LET a == c.a  b == c.b  nr == b.A.nr  nc == b.A.nc
+        hard == BadFlag(a.trans, {"N", "T", "C"}) \/ a.incx = 0 \/ a.incy = 0
+        m == IF a.m < 0 THEN nr ELSE a.m
+        n == IF a.n < 0 THEN nc ELSE a.n
+        early == (m = 0 /\ a.trans = "N") \/ (n = 0 /\ a.trans # "N")
+        oi == IF nr > 0 THEN a.offsetA % nr ELSE 0
+        oj == IF nr > 0 THEN a.offsetA \div nr ELSE 0
+        lx == IF a.trans = "N" THEN n ELSE m
+        ly == IF a.trans = "N" THEN m ELSE n
+        soft == a.offsetA < 0 \/ a.offsetx < 0 \/ a.offsety < 0
+                \/ (n > 0 /\ m > 0 /\ a.offsetA + (n - 1) * Max(1, nr) + m > nr * nc)
+                \/ NeedVec(a.offsetx, a.incx, lx) > Len0(b.x) \/ NeedVec(a.offsety, a.incy, ly) > Len0(b.y)
+                \/ BadScalar(a.alpha, c.tc) \/ BadScalar(a.beta, c.tc)
+        \* "This sparse version of GEMV requires that m <= A.size[0] - (offsetA % A.size[0])" (and likewise for the columns)
+        wrap == m > nr - oi \/ n > nc - oj
+        alpha == DfltS(a.alpha, Z1)  beta == DfltS(a.beta, Z0)
+        M == Eager([i \in 1..m |-> Eager([j \in 1..n |-> Img(b.A, oi + i, oj + j)])])
+        x == GetVec(b.x, a.offsetx, a.incx, lx)  y == GetVec(b.y, a.offsety, a.incy, ly)
+        out == WithD(b, "y", PutVec(b.y.d, a.offsety, a.incy, ly, VAxpby(alpha, MatVec(Op(M, m, n, a.trans), ly, lx, x), beta, y)))
+        r == Res(hard, early, soft, out, Z0, b)
+    IN  IF ~hard /\ ~early /\ ~soft /\ wrap THEN [v |-> "unspecified", out |-> b, ret |-> Z0] ELSE r
+FullM(b) == Eager([i \in 1..b.nr |-> Eager([j \in 1..b.nc |-> Img(b, i, j)])])
+SPGEMM(c) ==
+    LET a == c.a  b == c.b
+        hard0 == BadFlag(a.transA, {"N", "T", "C"}) \/ BadFlag(a.transB, {"N", "T", "C"})
+        m == IF a.transA = "N" THEN b.A.nr ELSE b.A.nc
+        k == IF a.transA = "N" THEN b.A.nc ELSE b.A.nr
+        n == IF a.transB = "N" THEN b.B.nc ELSE b.B.nr
+        kB == IF a.transB = "N" THEN b.B.nr ELSE b.B.nc
+        hard == hard0 \/ k # kB \/ b.C.nr # m \/ b.C.nc # n
+        early == m = 0 \/ n = 0
+        soft == BadScalar(a.alpha, c.tc) \/ BadScalar(a.beta, c.tc)
+        alpha == DfltS(a.alpha, Z1)  beta == DfltS(a.beta, Z0)
+        A == Op(FullM(b.A), b.A.nr, b.A.nc, a.transA)
+        B == Op(FullM(b.B), b.B.nr, b.B.nc, a.transB)
+        new == MAxpby(alpha, MatMat(A, m, k, B, n), beta, FullM(b.C), m, n)
+        Upd(i, j) == ~a.partial \/ b.Cmask.d[(j - 1) * m + i][1] = 1
+    IN  Res(hard, early, soft, WithD(b, "C", PutSel(b.C.d, 0, Max(1, m), m, n, new, Upd)), Z0, b)
+SPSYRK(c) ==
+    LET a == c.a  b == c.b
+        okT == IF c.tc = "d" THEN {"N", "T", "C"} ELSE {"N", "T"}
+        hard0 == BadFlag(a.uplo, {"L", "U"}) \/ BadFlag(a.trans, okT)
+        n == IF a.trans = "N" THEN b.A.nr ELSE b.A.nc
+        k == IF a.trans = "N" THEN b.A.nc ELSE b.A.nr
+        hard == hard0 \/ b.C.nr # n \/ b.C.nc # n
+        early == n = 0
+        soft == BadScalar(a.alpha, c.tc) \/ BadScalar(a.beta, c.tc)
+        alpha == DfltS(a.alpha, Z1)  beta == DfltS(a.beta, Z0)
+        X == IF a.trans = "N" THEN FullM(b.A) ELSE Tr(FullM(b.A), b.A.nr, b.A.nc)
+        new == MAxpby(alpha, MatMat(X, n, k, Tr(X, n, k), n), beta, FullM(b.C), n, n)
+        Upd(i, j) == (IF a.uplo = "L" THEN i >= j ELSE i <= j) /\ (~a.partial \/ b.Cmask.d[(j - 1) * n + i][1] = 1)
+    IN  Res(hard, early, soft, WithD(b, "C", PutSel(b.C.d, 0, Max(1, n), n, n, new, Upd)), Z0, b)
+
 Run(c) ==
     CASE c.f \in {"swap", "copy", "axpy", "dot", "dotu"} -> L1two(c, c.f)
       [] c.f \in {"scal", "nrm2", "asum", "iamax"} -> L1one(c, c.f)
@@ -386,4 +445,7 @@ Run(c) ==
       [] c.f \in {"syrk", "herk", "syr2k", "her2k"} -> RKK(c, c.f)
       [] c.f = "trmm" -> TRM(c, FALSE)
       [] c.f = "trsm" -> TRM(c, TRUE)
+      [] c.f = "sp_gemv" -> SPGEMV(c)
+      [] c.f = "sp_gemm" -> SPGEMM(c)
+      [] c.f = "sp_syrk" -> SPSYRK(c)
 =============================================================================
